@@ -1,0 +1,73 @@
+//go:build verif
+// +build verif
+
+package onet
+
+import (
+	"go.dedis.ch/kyber/v3/suites"
+	"go.dedis.ch/onet/v3/network"
+)
+
+// Accessors for the verification harness (property C13: identifiers);
+// compiled only with the build tag "verif". They expose a protocol table and
+// a service factory of their own (the types every Server / the process
+// holds), so that the identifier logic of registration can be driven without
+// touching the global tables, and the PeerSetID derivation of a Context.
+
+// VerifC13Protocols is a protocol table as every Server holds one.
+type VerifC13Protocols struct{ ps *protocolStorage }
+
+// VerifC13NewProtocols returns an empty protocol table.
+func VerifC13NewProtocols() *VerifC13Protocols {
+	return &VerifC13Protocols{newProtocolStorage()}
+}
+
+// Register is protocolStorage.Register.
+func (v *VerifC13Protocols) Register(name string, p NewProtocol) (ProtocolID, error) {
+	return v.ps.Register(name, p)
+}
+
+// IDToName is protocolStorage.ProtocolIDToName.
+func (v *VerifC13Protocols) IDToName(id ProtocolID) string { return v.ps.ProtocolIDToName(id) }
+
+// Exists is protocolStorage.ProtocolExists.
+func (v *VerifC13Protocols) Exists(id ProtocolID) bool { return v.ps.ProtocolExists(id) }
+
+// VerifC13Services is a service factory like the global ServiceFactory.
+type VerifC13Services struct{ sf *serviceFactory }
+
+// VerifC13NewServices returns an empty service factory.
+func VerifC13NewServices() *VerifC13Services {
+	return &VerifC13Services{&serviceFactory{constructors: []serviceEntry{}}}
+}
+
+// Register is serviceFactory.Register.
+func (v *VerifC13Services) Register(name string, suite suites.Suite, fn NewServiceFunc) (ServiceID, error) {
+	return v.sf.Register(name, suite, fn)
+}
+
+// Unregister is serviceFactory.Unregister.
+func (v *VerifC13Services) Unregister(name string) error { return v.sf.Unregister(name) }
+
+// ServiceID is serviceFactory.ServiceID.
+func (v *VerifC13Services) ServiceID(name string) ServiceID { return v.sf.ServiceID(name) }
+
+// Name is serviceFactory.Name.
+func (v *VerifC13Services) Name(id ServiceID) string { return v.sf.Name(id) }
+
+// Suite is serviceFactory.Suite.
+func (v *VerifC13Services) Suite(name string) suites.Suite { return v.sf.Suite(name) }
+
+// SuiteByID is serviceFactory.SuiteByID.
+func (v *VerifC13Services) SuiteByID(id ServiceID) suites.Suite { return v.sf.SuiteByID(id) }
+
+// IDs is serviceFactory.registeredServiceIDs.
+func (v *VerifC13Services) IDs() []ServiceID { return v.sf.registeredServiceIDs() }
+
+// Names is serviceFactory.RegisteredServiceNames.
+func (v *VerifC13Services) Names() []string { return v.sf.RegisteredServiceNames() }
+
+// VerifC13PeerSetID is Context.NewPeerSetID of a context of the service sid.
+func VerifC13PeerSetID(sid ServiceID, data []byte) network.PeerSetID {
+	return (&Context{serviceID: sid}).NewPeerSetID(data)
+}
